@@ -5,7 +5,7 @@
    are the reference's errors (document order) reversed. *)
 From Coq Require Import ZArith Lia List.
 From ApolloVerif Require Import Base.Chars Ast.Ast Schema.Model Run.Json Run.JsonLemmas Run.Coerce Run.CoerceProofs
-  Run.TypedDoc Run.Prog Run.Execute Run.ExecTop Run.RefExecute Run.ExecKnown Run.ExecProofs Run.ExecRefDefs
+  Run.TypedDoc Run.Prog Run.Execute Run.ExecTop Run.RefExecute Run.ExecProofs Run.ExecRefDefs
   Run.ExecRefInv Run.ExecRefFuel Run.ExecRefCollect Run.ExecRefTyping Run.ExecRefProp.
 Import ListNotations.
 Local Open Scope nat_scope.
@@ -32,7 +32,7 @@ Let e := {| rf_s := s; rf_frags := rd_frags d; rf_vars := vars; rf_w := w; rf_cx
 Hypothesis Hu : sch_names_unique s.
 Hypothesis Hm : sch_no_meta_fields s.
 Hypothesis Hstr : sch_has_string s.
-Hypothesis Hcov : known_covariant s d = false.
+Hypothesis Hcv : sch_impl_covariant s = true.
 Hypothesis Hfr : frags_typed s (rd_frags d).
 
 Notation tsel := (tsel_ok s d).
@@ -174,14 +174,14 @@ Definition S_selset (f1 : nat) : Prop :=
 Definition S_field (f1 : nat) : Prop :=
   forall f2 rpath otn oimpls oid fdef f0 rest st log res st' log',
     ex_get_object s otn = Some oimpls -> td_type_field s otn (rs_name f0) = Some fdef ->
-    Forall (tfield otn oimpls) (f0 :: rest) -> Forall (fun g => rs_dty g = fd_ty fdef) (f0 :: rest) ->
+    Forall (tfield otn oimpls) (f0 :: rest) -> Forall (narrowed_by s (fd_ty fdef)) (f0 :: rest) ->
     mergeable (flat_map rs_sels (f0 :: rest)) ->
     run_sync w (ex_field f1 cx rpath otn oimpls oid fdef f0 rest st) log = (res, st', log') -> res <> XrFuel ->
     rt_out_of_fuel (rf_field f2 e otn oid fdef (f0 :: rest)) = false ->
     agree st st' (xr_opt res) (rf_prop (fd_ty fdef) rpath (rf_field f2 e otn oid fdef (f0 :: rest))).
 
 Definition fields_at (otn : str) (oimpls : list str) (t : ty) (fields : list rsel) : Prop :=
-  Forall (fun g => tfield otn oimpls g /\ inner_named_type (rs_dty g) = inner_named_type t) fields.
+  Forall (fun g => tfield otn oimpls g /\ narrowed_by s t g) fields.
 
 Definition S_complete (f1 : nat) : Prop :=
   forall f2 rpath t r otn oimpls f0 rest st log res st' log',
@@ -267,7 +267,7 @@ Proof.
 Qed.
 
 Lemma fields_at_doc otn oimpls t fields : fields_at otn oimpls t fields ->
-  Forall (fun g => tfield otn oimpls g /\ inner_named_type (rs_dty g) = inner_named_type t) fields.
+  Forall (fun g => tfield otn oimpls g /\ narrowed_by s t g) fields.
 Proof. trivial. Qed.
 
 (* objects *)
@@ -335,7 +335,7 @@ Proof.
       assert (Hmf : m <> XrFuel) by (intros ->; now apply Hres).
       rewrite rt_oof_obj in Hoof'.
       assert (Hsel : Forall (tsel tname oimpls') (flat_map rs_sels (f0 :: rest))).
-      { eapply sub_typed; [|exact Happ]. rewrite <- Hin. exact Hfs. }
+      { eapply sub_typed; [|exact Hgo|exact Happ]. rewrite <- Hin. exact Hfs. }
       destruct (IHs f2 _ _ _ _ _ _ _ _ _ _ Hgo Hsel Hmg E1 Hmf Hoof') as [A1 A2].
       assert (Hw : nnw tp (RtObj (rf_selset f2 e tname id (flat_map rs_sels (f0 :: rest)))) =
                    RtObj (rf_selset f2 e tname id (flat_map rs_sels (f0 :: rest)))) by (unfold nnw; destruct (is_non_null tp); reflexivity).
@@ -392,18 +392,16 @@ Proof.
     assert (Hnames : Forall (fun g => rs_name g = rs_name f0) (f0 :: rest)).
     { apply Forall_forall. intros g Ig. rewrite Forall_forall in Hreach.
       apply (mergeable_names s (rd_frags d) sels otn oimpls g f0 Hmg Hg); [now apply Hreach|exact C0|]. apply Hkeys; [exact Ig|now left]. }
-    pose proof (group_types s d Hu Hm Hcov otn oimpls f0 rest fdef Hg Hok Hnames Ht) as Hty.
+    pose proof (group_types s d Hu Hm Hcv otn oimpls f0 rest fdef Hg Hok Hnames Ht) as Hty.
     assert (Hmg' : mergeable (flat_map rs_sels (f0 :: rest))).
     { apply (mergeable_sub s (rd_frags d) sels otn oimpls (f0 :: rest) Hmg Hg); [discriminate|exact Hreach|exact Hkeys]. }
     eapply IHf; eassumption.
   - (* execute_field *)
     intros f2 rpath otn oimpls oid fdef f0 rest st log res st' log' Hg Ht Hok Hty Hmg H Hres Hoof. cbn [ex_field] in H.
     destruct f2 as [|f2]; [discriminate|]. cbn [rf_field] in Hoof |- *. cbn [e rf_cx rf_s rf_w] in Hoof |- *.
-    inversion Hty as [|? ? Ht0 _]; subst.
     destruct (ex_coerce_args cx fdef f0) as [args|c|].
     + assert (Hfa : fields_at otn oimpls (fd_ty fdef) (f0 :: rest)).
-      { unfold fields_at. rewrite Forall_forall in Hok, Hty |- *. intros g Hin. split; [now apply Hok|]. now rewrite (Hty g Hin). }
-      rewrite Ht0 in H.
+      { unfold fields_at. rewrite Forall_forall in Hok, Hty |- *. intros g Hin. split; [now apply Hok|]. now apply Hty. }
       rewrite rs_bind in H.
       match type of H with
       | context [run_sync w (?x st) log] => destruct (run_sync w (x st) log) as [[r st1] log1] eqn:E1
@@ -536,7 +534,7 @@ Proof.
     { intros inner Ht H' Hoof'.
       assert (Hfi : fields_at otn oimpls inner (f0 :: rest)).
       { unfold fields_at in *. eapply Forall_impl; [|exact Hfa]. intros g [G1 G2]. split; [exact G1|].
-        rewrite G2. destruct Ht as [-> | ->]; reflexivity. }
+        destruct Ht as [-> | ->]; exact G2. }
       unfold rf_list_tree in *.
       assert (Hoofi : existsb rt_out_of_fuel (map (fun it => rf_complete f2' e inner it (f0 :: rest)) (rv_ok_prefix items)) = false)
         by (destruct (rv_has_err items); exact Hoof').
